@@ -265,3 +265,14 @@ Arguments mkFault {key} f_key f_ord f_what.
 Arguments f_key {key} f.
 Arguments f_ord {key} f.
 Arguments f_what {key} f.
+Arguments i_world {call world key} i.
+Arguments i_fault {call world key} i.
+Arguments i_seen {call world key} i.
+Arguments i_hit {call world key} i.
+Arguments i_trace {call world key} i.
+Arguments mkIst {call world key} i_world i_fault i_seen i_hit i_trace.
+Arguments init_ist {call world key} w f.
+Arguments d_world {call world} d.
+Arguments d_plan {call world} d.
+Arguments d_trace {call world} d.
+Arguments mkDst {call world} d_world d_plan d_trace.
